@@ -9,9 +9,13 @@
         in the order pluggy calls them (all are created first, then each runs to its first yield),
         runs the body, and resumes them in reverse order; `ctx.gen.send(v)` resumes them in reverse
         order up to their second yield (apluggy.stack_gen_ctxs);
-      * no exception is raised on the paths interpreted here except by an explicit `raise`, which is
-        caught by the enclosing `try/except` of that name (what `finally` does when an exception
-        passes is the subject of [gexec] in Events/Tie.v);
+      * NO EXCEPTION is raised on the paths interpreted here except by an explicit `raise` (caught by
+        the enclosing `try/except` of that name) and by a failing `assert` (the actor stops): here
+        `try: a finally: b` is a-then-b.  What the `finally` clauses do when an exception is thrown into
+        a generator at its yield is the subject of [gexec] in Events/Tie.v, for each generator on its
+        own.  NOT covered anywhere: an exception raised by a statement of a hook itself (a failing
+        queue put, a KeyError), by the entry of a context manager stacked later, KeyboardInterrupt
+        going through `catch()` in _context, and what apluggy's stack does with them;
       * one label [i] = actor i runs up to and including its next VISIBLE action (taking a number
         from a counter, or queue_out.put), then on through statements that are neither, up to the
         point where the environment (settrace, Pdb) is asked what comes next;
@@ -71,6 +75,18 @@ Definition field (v : value) (f : string) : value :=
 Definition truthy (v : value) : option bool :=
   match v with VBool b => Some b | VNone => Some false | VBad => None | _ => Some true end.
 
+(** a == b for the values the asserts compare (numbers, payloads, None, booleans, strings, tasks) *)
+Definition veqb (a b : value) : bool :=
+  match a, b with
+  | VNone, VNone => true
+  | VBool x, VBool y => Bool.eqb x y
+  | VNum x, VNum y => x =? y
+  | VPay x, VPay y => x =? y
+  | VStr x, VStr y => String.eqb x y
+  | VTask x, VTask y => Nat.eqb x y
+  | _, _ => false
+  end.
+
 (** ================================================================== shared state *)
 (** the dicts / sets of the plugin objects: name of the attribute -> key -> entry *)
 Notation store := (string -> key -> option value).
@@ -128,6 +144,7 @@ Fixpoint eval (n : nat) (c : ectx) (e : env) (x : expr) : value :=
         | None => VBad
         end
     | ENot a => match truthy (eval n c e a) with Some b => VBool (negb b) | None => VBad end
+    | EIsNone a => match eval n c e a with VNone => VBool true | VBad => VBad | _ => VBool false end
     | ELet v a b => eval n c ((v, eval n c e a) :: e) b
     | EIfNone v a b =>
         match eval n c e a with
@@ -141,9 +158,9 @@ Fixpoint eval (n : nat) (c : ectx) (e : env) (x : expr) : value :=
 Definition EFUEL : nat := 24%nat.
 
 (** the entries of the dicts / sets that [eval] looks at (same recursion as [eval]) *)
-Notation klog := (list (string * key)).
+Notation kl := (list (string * key)).
 
-Fixpoint ekeys (n : nat) (c : ectx) (e : env) (x : expr) : klog :=
+Fixpoint ekeys (n : nat) (c : ectx) (e : env) (x : expr) : kl :=
   match n with
   | O => []
   | S n =>
@@ -154,7 +171,7 @@ Fixpoint ekeys (n : nat) (c : ectx) (e : env) (x : expr) : klog :=
     | ETuple es => flat_map (ekeys n c e) es
     | EMapGet m k | EMapIdx m k | EIn k m =>
         ekeys n c e k ++ match to_key (eval n c e k) with Some kk => [(m, kk)] | None => [] end
-    | ENot a => ekeys n c e a
+    | ENot a | EIsNone a => ekeys n c e a
     | ELet v a b => ekeys n c e a ++ ekeys n c ((v, eval n c e a) :: e) b
     | EIfNone v a b =>
         ekeys n c e a ++
@@ -176,6 +193,8 @@ Inductive op :=
 | OMapSet (m : string) (k v : expr)
 | OMapDel (m : string) (k : expr)
 | OSetAttr (a : string) (e : expr)
+| OAssertEq (a b : expr)               (* AssertionError unless a == b *)
+| OAssertTrue (e : expr)               (* AssertionError unless e *)
 | OJmpUnless (c : expr) (n : nat)      (* if <c> is false skip the next n ops *)
 | OJmp (n : nat)
 | ORaise (exc : string)
@@ -202,6 +221,7 @@ Fixpoint qual (q : string) (e : expr) : expr :=
   | EMapIdx m k => EMapIdx m (qual q k)
   | EIn k m => EIn (qual q k) m
   | ENot a => ENot (qual q a)
+  | EIsNone a => EIsNone (qual q a)
   | ELet x a b => ELet (qn q x) (qual q a) (qual q b)
   | EIfNone x a b => EIfNone (qn q x) (qual q a) (qual q b)
   | x => x
@@ -341,6 +361,9 @@ Fixpoint comp (n : nat) (q : string) (ce : cenv) (s : stmt) : list op :=
     | SSetAdd m k => [OMapSet m (qual q k) (EBool true)]
     | SSetRemove m k => [OMapDel m (qual q k)]
     | SSetAttr a e => [OSetAttr a (qual q e)]
+    | SAssertEq a b => [OAssertEq (qual q a) (qual q b)]
+    | SAssertTrue e => [OAssertTrue (qual q e)]
+    | SExt _ => []
     end
   end.
 
@@ -427,6 +450,12 @@ Definition crashed (a : iactor) : iactor := mkIA [OBad "crashed"] (ia_env a) (ia
 Definition set_ops (a : iactor) (l : list op) : iactor := mkIA l (ia_env a) (ia_t0 a) (ia_c0 a) (ia_p0 a).
 Definition set_env (a : iactor) (l : list op) (e : env) : iactor := mkIA l e (ia_t0 a) (ia_c0 a) (ia_p0 a).
 
+(** what a step leaves in its log: the entries of the dicts / sets it looked at or wrote, and what its
+    asserts compared *)
+Inductive lentry := LK (m : string) (k : key) | LEq (a b : value) | LTrue (v : value).
+Notation klog := (list lentry).
+Definition lks (l : kl) : klog := map (fun p => LK (fst p) (snd p)) l.
+
 Definition ctx_of (r : Z) (i : nat) (sh : shared) : ectx := mkC r i (sh_st sh) (sh_attrs sh).
 
 Definition set_st (sh : shared) (st : store) : shared := mkSh (sh_ct sh) (sh_cc sh) (sh_cp sh) st (sh_attrs sh).
@@ -437,29 +466,38 @@ Definition is_driver (o : op) : bool :=
 
 (** one op that is neither visible nor the environment's: Some (actor, shared, entries looked at or
     written) or None = crash *)
-Definition silent (keq : key -> key -> bool) (r : Z) (i : nat) (sh : shared) (a : iactor) (o : op) (rest : list op)
+Definition silent (keq : key -> key -> bool) (strict : bool) (r : Z) (i : nat) (sh : shared) (a : iactor) (o : op) (rest : list op)
   : option (iactor * shared * klog) :=
   let c := ctx_of r i sh in
   let e := ia_env a in
-  let ek := ekeys EFUEL c e in
+  let ek := fun x => lks (ekeys EFUEL c e x) in
   match o with
   | OLet x ex => Some (set_env a rest (eset e x (eval EFUEL c e ex)), sh, ek ex)
   | OConst x v => Some (set_env a rest (eset e x v), sh, [])
   | OMapSet m k v =>
       match to_key (eval EFUEL c e k) with
-      | Some kk => Some (set_ops a rest, set_st sh (upd keq (sh_st sh) m kk (Some (eval EFUEL c e v))), ek k ++ ek v ++ [(m, kk)])
+      | Some kk => Some (set_ops a rest, set_st sh (upd keq (sh_st sh) m kk (Some (eval EFUEL c e v))), ek k ++ ek v ++ [LK m kk])
       | None => None
       end
   | OMapDel m k =>
       match to_key (eval EFUEL c e k) with
       | Some kk => match sh_st sh m kk with
-                   | Some _ => Some (set_ops a rest, set_st sh (upd keq (sh_st sh) m kk None), ek k ++ [(m, kk)])
+                   | Some _ => Some (set_ops a rest, set_st sh (upd keq (sh_st sh) m kk None), ek k ++ [LK m kk])
                    | None => None                    (* KeyError *)
                    end
       | None => None
       end
   | OSetAttr at_ ex =>
       Some (set_ops a rest, mkSh (sh_ct sh) (sh_cc sh) (sh_cp sh) (sh_st sh) (eset (sh_attrs sh) at_ (eval EFUEL c e ex)), ek ex)
+  | OAssertEq x y =>
+      (* [strict]: the assert is evaluated; otherwise it is only logged (the log is then checked) *)
+      let vx := eval EFUEL c e x in let vy := eval EFUEL c e y in
+      if strict && negb (veqb vx vy) then None
+      else Some (set_ops a rest, sh, ek x ++ ek y ++ [LEq vx vy])
+  | OAssertTrue x =>
+      let vx := eval EFUEL c e x in
+      if strict && negb (match truthy vx with Some true => true | _ => false end) then None
+      else Some (set_ops a rest, sh, ek x ++ [LTrue vx])
   | OJmpUnless cnd n =>
       match truthy (eval EFUEL c e cnd) with
       | Some true => Some (set_ops a rest, sh, ek cnd)
@@ -483,7 +521,7 @@ Definition expand (o : op) : option (list op) :=
   end.
 
 (** after the visible action: on through what is neither visible nor the environment's *)
-Fixpoint settle (fuel : nat) (keq : key -> key -> bool) (r : Z) (i : nat) (sh : shared) (a : iactor) (lg : klog)
+Fixpoint settle (fuel : nat) (keq : key -> key -> bool) (strict : bool) (r : Z) (i : nat) (sh : shared) (a : iactor) (lg : klog)
   : iactor * shared * bool * klog :=
   match fuel with
   | O => (crashed a, sh, false, lg)
@@ -492,8 +530,8 @@ Fixpoint settle (fuel : nat) (keq : key -> key -> bool) (r : Z) (i : nat) (sh : 
     | [] => (a, sh, true, lg)
     | o :: rest =>
       if is_visible o || is_driver o then (a, sh, true, lg)
-      else match silent keq r i sh a o rest with
-           | Some (a', sh', l) => settle fuel keq r i sh' a' (lg ++ l)
+      else match silent keq strict r i sh a o rest with
+           | Some (a', sh', l) => settle fuel keq strict r i sh' a' (lg ++ l)
            | None => (crashed a, sh, false, lg)
            end
     end
@@ -521,7 +559,7 @@ Definition visible (r : Z) (i : nat) (sh : shared) (a : iactor) (o : op) (rest :
            | CPrompt => mkIA rest e' (ia_t0 a) (ia_c0 a) (ia_p0 a + counter_step)
            end, sh, ITake c, [])
       end
-  | OPut ex => (set_ops a rest, sh, IPut (eval EFUEL (ctx_of r i sh) (ia_env a) ex), ekeys EFUEL (ctx_of r i sh) (ia_env a) ex)
+  | OPut ex => (set_ops a rest, sh, IPut (eval EFUEL (ctx_of r i sh) (ia_env a) ex), lks (ekeys EFUEL (ctx_of r i sh) (ia_env a) ex))
   | _ => (crashed a, sh, ICrash, [])
   end.
 
@@ -529,7 +567,7 @@ Definition SFUEL : nat := 120%nat.
 
 (** up to and including the next visible action, then [settle]; the last component lists the
     entries of the dicts / sets that were looked at or written *)
-Fixpoint run1 (fuel : nat) (keq : key -> key -> bool) (r : Z) (i : nat) (sh : shared) (a : iactor) (lg : klog)
+Fixpoint run1 (fuel : nat) (keq : key -> key -> bool) (strict : bool) (r : Z) (i : nat) (sh : shared) (a : iactor) (lg : klog)
   : iactor * shared * ieff * klog :=
   match fuel with
   | O => (crashed a, sh, ICrash, lg)
@@ -539,13 +577,13 @@ Fixpoint run1 (fuel : nat) (keq : key -> key -> bool) (r : Z) (i : nat) (sh : sh
     | o :: rest =>
       if is_visible o then
         let '(a1, sh1, eff, l1) := visible r i sh a o rest in
-        let '(a2, sh2, ok, l2) := settle SFUEL keq r i sh1 a1 (lg ++ l1) in
+        let '(a2, sh2, ok, l2) := settle SFUEL keq strict r i sh1 a1 (lg ++ l1) in
         (a2, sh2, if ok then eff else ICrash, l2)
       else match expand o with
-           | Some l => run1 fuel keq r i sh (set_ops a (l ++ rest)) lg
+           | Some l => run1 fuel keq strict r i sh (set_ops a (l ++ rest)) lg
            | None =>
-               match silent keq r i sh a o rest with
-               | Some (a', sh', l) => run1 fuel keq r i sh' a' (lg ++ l)
+               match silent keq strict r i sh a o rest with
+               | Some (a', sh', l) => run1 fuel keq strict r i sh' a' (lg ++ l)
                | None => (crashed a, sh, ICrash, lg)
                end
            end
@@ -608,7 +646,7 @@ Definition istep (r : Z) (s : isys) (i : nat) : isys * option event :=
   match nth_error (is_actors s) i with
   | None => (s, None)
   | Some a =>
-      let '(a', sh', eff, _) := run1 RFUEL key_eqb r i (is_sh s) a [] in
+      let '(a', sh', eff, _) := run1 RFUEL key_eqb true r i (is_sh s) a [] in
       (mkIS (set_nth (is_actors s) i a') sh', match eff with IPut v => to_event v | _ => None end)
   end.
 
